@@ -29,13 +29,13 @@ type PropSpec struct {
 	Solver      string // default back end
 	Units       func(tier string, seed int64, sh *Shared) []Unit
 	MaxSteps    int64
-	MaxPaths    int // per unit
-	TimeoutMs   int // per solver query
+	MaxPaths    int      // per unit
+	TimeoutMs   int      // per solver query
 	Reach       []string // vacuity labels that must be reached somewhere
 	Bounds      func(tier string) map[string]interface{}
 	Assumptions []string
 	Rule        string
-	Race        bool // replay natively under -race
+	Race        bool                            // replay natively under -race
 	WallBudget  func(tier string) time.Duration // stop starting new units after this (reported as reduced bound)
 }
 
